@@ -29,8 +29,6 @@ Fixpoint update (st : store) (i : nat) (b : buf) : store :=
   | x :: t, S j => x :: update t j b
   end.
 
-Definition alloc (st : store) (b : buf) : store * nat := (st ++ [b], length st).
-
 (* variable binding: local variable (a number) -> buffer id *)
 Definition env := nat -> nat.
 Definition setv (en : env) (x i : nat) : env := fun y => if Nat.eqb y x then i else en y.
@@ -130,6 +128,14 @@ Fixpoint safe (self_ok : bool) (p : stmt) (a : flags) : option flags :=
 
 Definition is_safe (self_ok : bool) (m : method) : bool :=
   match safe self_ok (body m) (repeat top (nvars m)) with Some _ => true | None => false end.
+
+(* the analysis flags the returned variable as a new object (neither the caller's nor the
+   estimator's) *)
+Definition returns_fresh (m : method) : bool :=
+  match safe false (body m) (repeat top (nvars m)) with
+  | Some a => negb (fst (fl a (ret m))) && negb (snd (fl a (ret m)))
+  | None => false
+  end.
 
 (* ---- generic shapes (hand-written; the anchored transformers' programs are generated) ---- *)
 
@@ -397,13 +403,15 @@ Record site := {
   task_rng_from_seed : bool;      (* every generator used in the task is built in the task from a
                                      seed value (check_random_state(<param or self.random_state>)) *)
   task_no_shared_write : bool;    (* the task assigns no self.<attr>, has no global / nonlocal    *)
-  draws_before_dispatch : bool    (* enclosing draws on a generator precede the Parallel call     *)
+  draws_before_dispatch : bool;   (* enclosing draws on a generator precede the Parallel call     *)
+  njobs_none_ok : bool            (* n_jobs is only handed on (Parallel / check_n_jobs), never
+                                     compared or computed with: n_jobs=None reaches the pool       *)
 }.
 
 Definition site_ok (s : site) : bool :=
   gen_form s && kw_ok s && bound_whole s && task_resolved s && no_shared_rng_arg s &&
   task_no_global_rng s && task_rng_from_seed s && task_no_shared_write s &&
-  draws_before_dispatch s.
+  draws_before_dispatch s && njobs_none_ok s.
 
 (* what a call site denotes in the pool model: tasks that draw from a generator shared between
    them if an RNG object reaches the tasks, otherwise tasks whose seeds were drawn before
